@@ -1,9 +1,10 @@
 CONSTANTS
   Towers = {"t1", "t2"}
   Locators = {"l1", "l2", "l3", "l4"}
-  DEVIATIONS = {"S15", "S18", "S19", "S20", "S21", "S22"}
+  DEVIATIONS = {"S19", "S20"}
   MINB = 240
   SLACK = 2500
+  PROC = 1500
   CAP = 5000
 SPECIFICATION Spec
 CHECK_DEADLOCK FALSE
